@@ -21,17 +21,19 @@ var (
 	c16UDP = []string{"answer", "tc-empty", "tc-with-records", "silent", "nxdomain", "tc-servfail"}
 	c16TCP = []string{"answers", "dial-refused", "abort-after-write", "silent", "answers-tc-again", "garbage", "silent-then-late-reply"}
 	c16Q   = []string{"A", "TXT", "A+OPT", "AAAA-mixedcase"}
+	// between the first and the second exchange: the server closes / resets the idle TCP connection, or the pooled UDP socket breaks
+	c16Between = []string{"nothing", "tcp-idle-fin", "tcp-idle-abort", "udp-socket-dead"}
 )
 
 // c16Prop: the property this harness reports for (the same exploration is a part of C05 and C06, see fail()).
 var c16Prop = func() string {
-	if p := os.Getenv("VERIF_PROP"); p == "C05" || p == "C06" {
+	if p := os.Getenv("VERIF_PROP"); p == "C05" || p == "C06" || p == "C14" {
 		return p
 	}
 	return "C16"
 }()
 
-var c16Shared = map[string]bool{"panic": true, "nil-nil": true, "id-not-restored": true, "reply-not-sent-by-server": true, "ownership": true}
+var c16Shared = map[string]bool{"reply-with-error": true, "panic": true, "nil-nil": true, "id-not-restored": true, "reply-not-sent-by-server": true, "ownership": true}
 
 func c16Scenario(c *choice.Ctx, rep *report.R) {
 	own := env.InstallOwn(0xA5, vRace)
@@ -46,12 +48,16 @@ func c16Scenario(c *choice.Ctx, rep *report.R) {
 	ui := c.Choose(len(c16UDP), "udp")
 	ti := c.Choose(len(c16TCP), "tcp")
 	second := c.Choose(2, "second-exchange") // run the same thing twice: the second exchange reuses pooled connections
-	desc := fmt.Sprintf("query=%s udp=%s tcp=%s second=%d", c16Q[qi], c16UDP[ui], c16TCP[ti], second)
+	between := "nothing"
+	if second == 1 {
+		between = c16Between[c.Choose(len(c16Between), "between-exchanges")]
+	}
+	desc := fmt.Sprintf("query=%s udp=%s tcp=%s second=%d between=%s", c16Q[qi], c16UDP[ui], c16TCP[ti], second, between)
 	fail := func(sig, msg string) {
 		if c16Prop != "C16" {
-			// run as a part of C05 / C06: only what those properties state about the fallback path
-			// (a returned message is a reply the server sent to this exchange, caller's id restored)
-			if !c16Shared[sig] {
+			// run as a part of C05 / C06: only what those properties state about the fallback path (a returned message is a reply
+			// the server sent to this exchange, caller's id restored); as a part of C14: the exchange returns by its deadline
+			if !(c16Shared[sig] && c16Prop != "C14") && !(c16Prop == "C14" && (sig == "missed-deadline" || sig == "panic" || sig == "nil-nil")) {
 				return
 			}
 			sig = "udp-fallback:" + sig
@@ -76,10 +82,38 @@ func c16Scenario(c *choice.Ctx, rep *report.R) {
 	}
 	obs := ""
 	for round := 0; round <= second; round++ {
-		udpFramesBefore := 0
-		if ud.NumConns() > 0 {
-			udpFramesBefore = len(env.QueriesOn(0, ud.ImplEnd(0), false))
+		udpFrames := func() (n int, ci int, last *env.PeerQuery) {
+			for i := 0; i < ud.NumConns(); i++ {
+				qs := env.QueriesOn(i, ud.ImplEnd(i), false)
+				n += len(qs)
+				if len(qs) > 0 && !ud.ImplEnd(i).IsClosed() {
+					ci, last = i, &qs[len(qs)-1]
+				}
+			}
+			return
 		}
+		if round == 1 {
+			// what happened to the pooled connections between the two exchanges
+			switch between {
+			case "tcp-idle-fin":
+				for i := 0; i < td.NumConns(); i++ {
+					td.ImplEnd(i).PeerFIN()
+				}
+			case "tcp-idle-abort":
+				for i := 0; i < td.NumConns(); i++ {
+					td.ImplEnd(i).Abort()
+				}
+			case "udp-socket-dead":
+				// writes on the pooled UDP socket now fail (ICMP error / route gone); reads too
+				for i := 0; i < ud.NumConns(); i++ {
+					ud.ImplEnd(i).AbortWrites()
+				}
+			}
+			if between == "tcp-idle-fin" || between == "tcp-idle-abort" {
+				wait()
+			}
+		}
+		udpFramesBefore, _, _ := udpFrames()
 		tcpDialsBefore := td.NumDials()
 		tcpFrames := func() (n int, last []byte) {
 			for ci := 0; ci < td.NumConns(); ci++ {
@@ -100,12 +134,12 @@ func c16Scenario(c *choice.Ctx, rep *report.R) {
 			fail("no-udp-attempt", "no UDP connection was opened")
 			return
 		}
-		uqs := env.QueriesOn(0, ud.ImplEnd(0), false)
-		if len(uqs) != udpFramesBefore+1 || uqs[len(uqs)-1].Msg == nil {
-			fail("udp-query-count", fmt.Sprintf("expected exactly one new UDP query, saw %d", len(uqs)-udpFramesBefore))
+		nUDP, udpConn, lastUDP := udpFrames()
+		if nUDP != udpFramesBefore+1 || lastUDP == nil || lastUDP.Msg == nil {
+			fail("udp-query-count", fmt.Sprintf("expected exactly one new UDP query (on a live socket), saw %d", nUDP-udpFramesBefore))
 			return
 		}
-		uq := uqs[len(uqs)-1]
+		uq := *lastUDP
 		if uq.Msg.Canon() != (&refdns.Msg{ID: uq.WireID, Bits: q.Bits, Q: q.Q, Ar: q.Ar}).Canon() {
 			fail("udp-query-altered", "the UDP query differs from the caller's query in more than the id")
 		}
@@ -125,7 +159,7 @@ func c16Scenario(c *choice.Ctx, rep *report.R) {
 			udpReply.Bits |= refdns.BitTC
 		}
 		if udpReply != nil {
-			ud.ImplEnd(0).Inject(udpReply.Encode(false))
+			ud.ImplEnd(udpConn).Inject(udpReply.Encode(false))
 			wait()
 		}
 		tc := udpReply != nil && udpReply.Has(refdns.BitTC)
@@ -134,7 +168,8 @@ func c16Scenario(c *choice.Ctx, rep *report.R) {
 		nTCP, lastTCP := tcpFrames()
 		if tc {
 			if c16TCP[ti] != "dial-refused" {
-				if nTCP != tcpBefore+1 {
+				staleRetry := round == 1 && (between == "tcp-idle-fin" || between == "tcp-idle-abort") // the first attempt may go to the dead pooled connection and is then repeated
+				if nTCP < tcpBefore+1 || (nTCP != tcpBefore+1 && !staleRetry) || nTCP > tcpBefore+7 {
 					fail("no-tcp-retry", fmt.Sprintf("UDP reply had TC set but %d TCP queries were sent", nTCP-tcpBefore))
 				} else {
 					if !bytes.Equal(lastTCP, wire) {
@@ -184,6 +219,9 @@ func c16Scenario(c *choice.Ctx, rep *report.R) {
 		}
 		if cl.panicked != nil {
 			fail("panic", fmt.Sprint(cl.panicked))
+		}
+		if cl.resp != nil && cl.err != nil {
+			fail("reply-with-error", fmt.Sprintf("the exchange returned a message together with an error, which the caller treats as a failure: %v", cl.err))
 		}
 		if cl.nilnil {
 			fail("nil-nil", "returned (nil, nil)")
@@ -261,8 +299,8 @@ func c16Scenario(c *choice.Ctx, rep *report.R) {
 func TestVerifC16(t *testing.T) {
 	rep := report.New(c16Prop + " UDP truncation fallback")
 	defer rep.Write()
-	rep.Rule = fmt.Sprintf("E3: the object NewUpstream builds for udp:// (udpWithFallback{PipelineTransport(udp), ReuseConnTransport(tcp)}) over scripted dialers; full product query %v x UDP reply %v x TCP leg %v x {one exchange, two exchanges (second reuses pooled connections)}; "+
-		"oracle: TC => exactly one TCP query byte-identical to the caller's, caller gets the TCP outcome and never the truncated UDP message; no TC => UDP message returned as received (id restored) and zero TCP dials/queries; return by deadline", c16Q, c16UDP, c16TCP)
+	rep.Rule = fmt.Sprintf("E3: the object NewUpstream builds for udp:// (udpWithFallback{PipelineTransport(udp), ReuseConnTransport(tcp)}) over scripted dialers; full product query %v x UDP reply %v x TCP leg %v x {one exchange, two exchanges (second reuses pooled connections) with %v in between}; "+
+		"oracle: TC => exactly one TCP query byte-identical to the caller's, caller gets the TCP outcome and never the truncated UDP message; no TC => UDP message returned as received (id restored) and zero TCP dials/queries; return by deadline", c16Q, c16UDP, c16TCP, c16Between)
 	st := runExplore(t, rep, -1, func(c *choice.Ctx) { c16Scenario(c, rep) })
 	rep.Count("executions", st.Executions)
 	rep.Sample(map[string]any{"query": "A+OPT", "udp": "tc-with-records", "tcp": "abort-after-write", "expect": "error, not the truncated UDP message"})
